@@ -34,7 +34,22 @@ func init() {
 		Assumptions:   []string{"the model (model/distributor.go) is the documented flow: MAIN inflow = main balance not owed to anybody, module/base sources swept whole plus their own re-queued remains, shares of inflow, primary gets the remainder, integer payouts at block end"},
 		Cases:         func(t string) int { return tierN(t, 960, 30000) },
 		MinNontrivial: func(t string) int { return tierN(t, 120, 4000) },
-		Run:           func(c *fw.Case) { runDistScenario(c, "C04") },
+		Run: func(c *fw.Case) {
+			if c.Index%16 == 5 {
+				// shares under injected transfer failures (C14's configurations and schedules):
+				// a failed sweep or payout must not credit anybody with coins that did not move
+				runC14(c)
+				c.MapViolationKeys(func(k string) string {
+					if strings.HasPrefix(k, "C14/share-drift") {
+						return "C04/share-drift-under-transfer-failures" + strings.TrimPrefix(k, "C14/share-drift")
+					}
+					return ""
+				})
+				c.Count("fault_injection_cases", 1)
+				return
+			}
+			runDistScenario(c, "C04")
+		},
 	})
 }
 
